@@ -121,6 +121,28 @@ Proof.
     destruct o2 as [b|b]; [|exists (Thr b), h2; intros; rewrite E1; cbn [bind]; rewrite E2; reflexivity].
     destruct (tpl2_tail_tenv q0 a q1 b q2 h2) as (o3 & h3 & E3).
     exists o3, h3. intros. rewrite E1. cbn [bind]. rewrite E2. cbn [bind]. apply E3.
+  - (* optional method call without argument *)
+    destruct (IHe Hs h t) as (o1 & h1 & E1).
+    destruct o1 as [vo|vo]; [|exists (Thr vo), h1; intros; rewrite E1; reflexivity].
+    destruct (nullish vo) eqn:NV; [exists (Ret VUndef), h1; intros; rewrite E1; cbn [bind]; rewrite NV; reflexivity|].
+    destruct (respond h1 (EvGet vo m)) as [vf|vf] eqn:RG.
+    2:{ exists (Thr vf), (h1 ++ [EvGet vo m]). intros. rewrite E1. cbn [bind]. rewrite NV. unfold fire. rewrite RG. reflexivity. }
+    destruct (respond (h1 ++ [EvGet vo m]) (EvCallT vf vo [])) eqn:R;
+      [exists (Ret v)|exists (Thr v)]; exists ((h1 ++ [EvGet vo m]) ++ [EvCallT vf vo []]); intros; rewrite E1; cbn [bind]; rewrite NV;
+      unfold fire; rewrite RG; cbn [bind]; rewrite R; reflexivity.
+  - (* optional method call *)
+    destruct Hs as [Hl Hr].
+    destruct (IHe1 Hl h t) as (o1 & h1 & E1).
+    destruct o1 as [vo|vo]; [|exists (Thr vo), h1; intros; rewrite E1; reflexivity].
+    destruct (nullish vo) eqn:NV; [exists (Ret VUndef), h1; intros; rewrite E1; cbn [bind]; rewrite NV; reflexivity|].
+    destruct (respond h1 (EvGet vo m)) as [vf|vf] eqn:RG.
+    2:{ exists (Thr vf), (h1 ++ [EvGet vo m]). intros. rewrite E1. cbn [bind]. rewrite NV. unfold fire. rewrite RG. reflexivity. }
+    destruct (IHe2 Hr (h1 ++ [EvGet vo m]) t) as (o2 & h2 & E2).
+    destruct o2 as [va|va].
+    2:{ exists (Thr va), h2. intros. rewrite E1. cbn [bind]. rewrite NV. unfold fire. rewrite RG. cbn [bind]. rewrite E2. reflexivity. }
+    destruct (respond h2 (EvCallT vf vo [va])) eqn:R;
+      [exists (Ret v)|exists (Thr v)]; exists (h2 ++ [EvCallT vf vo [va]]); intros; rewrite E1; cbn [bind]; rewrite NV;
+      unfold fire; rewrite RG; cbn [bind]; rewrite E2; cbn [bind]; rewrite R; reflexivity.
 Qed.
 
 (** ** Operands that stay in place *)
@@ -211,6 +233,24 @@ Lemma eval_hoist3 n1 e1 n2 e2 n3 e3 b (s : st) :
   bind (eval e3 (fst s2, upd (snd s2) n2 v2)) (fun v3 s3 => eval b (fst s3, upd (snd s3) n3 v3)))).
 Proof. reflexivity. Qed.
 
+Lemma eval_optm0 o m (s : st) :
+  eval (OptMCall0 o m) s =
+  bind (eval o s) (fun vo s1 => if nullish vo then (Ret VUndef, s1)
+        else bind (fire respond (EvGet vo m) s1) (fun vf s2 => fire respond (EvCallT vf vo []) s2)).
+Proof. reflexivity. Qed.
+
+Lemma eval_optm1 o m a (s : st) :
+  eval (OptMCall1 o m a) s =
+  bind (eval o s) (fun vo s1 => if nullish vo then (Ret VUndef, s1)
+        else bind (fire respond (EvGet vo m) s1) (fun vf s2 =>
+             bind (eval a s2) (fun va s3 => fire respond (EvCallT vf vo [va]) s3))).
+Proof. reflexivity. Qed.
+
+Lemma eval_guard n e b (s : st) :
+  eval (Guard n e b) s =
+  bind (eval e s) (fun v s1 => if nullish v then (Ret VUndef, (fst s1, upd (snd s1) n v)) else eval b (fst s1, upd (snd s1) n v)).
+Proof. reflexivity. Qed.
+
 Lemma eval_tpl1 q0 e q1 (s : st) :
   eval (Tpl1 q0 e q1) s = bind (eval e s) (fun v s1 => tpl1_tail respond q0 v q1 s1).
 Proof. reflexivity. Qed.
@@ -236,6 +276,21 @@ Qed.
 Variable instr : string -> bool.
 Variable lit_ok : string -> bool.
 Notation rw := (rw instr lit_ok).
+
+Lemma rw_optm0_eq o m c :
+  rw (OptMCall0 o m) c =
+  if instr m && negb (is_lit o)
+  then let '(o', c1) := rw o (S c) in let '(body, c2) := rw_mcall0 (Tmp c) m c1 in (Guard c o' body, c2)
+  else let '(o', c1) := rw o c in (OptMCall0 o' m, c1).
+Proof. reflexivity. Qed.
+
+Lemma rw_optm1_eq o m a c :
+  rw (OptMCall1 o m a) c =
+  if instr m && negb (is_lit o)
+  then let '(o', c1) := rw o (S c) in let '(a', c2) := rw a c1 in
+       let '(body, c3) := rw_mcall (Tmp c) m a' c2 in (Guard c o' body, c3)
+  else let '(o', c1) := rw o c in let '(a', c2) := rw a c1 in (OptMCall1 o' m a', c2).
+Proof. reflexivity. Qed.
 
 Lemma rw_tpl1_eq q0 e q1 c :
   rw (Tpl1 q0 e q1) c = if is_lit e then (Tpl1 q0 e q1, c) else let '(e', c1) := rw e c in rw_tpl1 q0 e' q1 c1.
@@ -336,6 +391,15 @@ Proof.
     + simpl in Hk. destruct Hk as [Hk | (a & b & Hk)]; discriminate.
     + destruct (rw e1 c) as [l' c1]. destruct (rw e2 c1) as [r' c2]. unfold rw_tpl2 in Hk.
       destruct (arg_act l'); destruct (arg_act r'); simpl in Hk; destruct Hk as [Hk | (a & b & Hk)]; discriminate.
+  - (* optional method calls: an optional call or a guard *)
+    rewrite rw_optm0_eq in Hk. destruct (instr m && negb (is_lit e)).
+    + destruct (rw e (S c)) as [o' c1]. unfold rw_mcall0 in Hk. cbn [is_lit] in Hk. simpl in Hk.
+      destruct Hk as [Hk | (a & b & Hk)]; discriminate.
+    + destruct (rw e c) as [o' c1]. simpl in Hk. destruct Hk as [Hk | (a & b & Hk)]; discriminate.
+  - rewrite rw_optm1_eq in Hk. destruct (instr m && negb (is_lit e1)).
+    + destruct (rw e1 (S c)) as [o' c1]. destruct (rw e2 c1) as [a' c2]. unfold rw_mcall in Hk. cbn [is_lit] in Hk.
+      destruct (arg_act a'); simpl in Hk; destruct Hk as [Hk | (a & b & Hk)]; discriminate.
+    + destruct (rw e1 c) as [o' c1]. destruct (rw e2 c1) as [a' c2]. simpl in Hk. destruct Hk as [Hk | (a & b & Hk)]; discriminate.
 Qed.
 
 (* Main statement: same outcome, same history, and only temporaries of the allocated range are touched. *)
@@ -917,6 +981,122 @@ Proof.
         destruct (arg_act e1) eqn:LA; try congruence; destruct (arg_act e2) eqn:RA; try congruence;
           cbn [app fst snd wrap]; (split; [lia|]); intros o h' E; exists t; (split; [|apply frame_refl]);
           rewrite hook_pure by (repeat constructor; apply pure_inplace; assumption); apply E.
+  - (* optional method call without argument *)
+    rewrite rw_optm0_eq. destruct (instr m && negb (is_lit e)) eqn:INS.
+    + (* the chain is guarded, and the call on the guard temporary is instrumented *)
+      pose proof (IHe Hs (S c)) as I1. destruct (rw e (S c)) as [o' c1] eqn:Ro. simpl in I1.
+      assert (Hc1 : S c <= c1) by (destruct (I1 h t); auto).
+      destruct (src_tenv e Hs h t) as (o1 & h1 & E1).
+      unfold rw_mcall0. cbn [is_lit app fst snd wrap]. split; [lia|]. intros o h' E.
+      destruct (I1 h t) as (_ & K1). destruct (K1 o1 h1 E1) as (t1 & El & F1).
+      rewrite eval_guard, El. specialize (E t). rewrite eval_optm0, E1 in E.
+      destruct o1 as [vo|vo]; cbn [bind fst snd] in *; [|inversion E; subst o h'; eexists; split; [reflexivity|frame_tac]].
+      destruct (nullish vo) eqn:NV; [inversion E; subst o h'; eexists; split; [reflexivity|frame_tac]|].
+      rewrite eval_hoist2, eval_tmp. cbn [bind fst snd]. rewrite upd_same.
+      rewrite eval_get, eval_tmp. cbn [bind fst snd]. rewrite upd_same.
+      destruct (respond h1 (EvGet vo m)) as [vf|vf] eqn:RG.
+      2:{ rewrite (fire_thr t RG) in E. rewrite (fire_thr _ RG). cbn [bind] in *. inversion E; subst o h'. eexists; split; [reflexivity|frame_tac]. }
+      rewrite (fire_ret t RG) in E. rewrite (fire_ret _ RG). cbn [bind fst snd] in *.
+      rewrite hook_pure by (repeat constructor; apply pure_tmp).
+      rewrite eval_callt0. step_eval. rewrite upd_same. rewrite upd_other by lia. rewrite upd_same.
+      destruct (respond (h1 ++ [EvGet vo m]) (EvCallT vf vo [])) eqn:RC;
+        [rewrite (fire_ret t RC) in E; rewrite (fire_ret _ RC) | rewrite (fire_thr t RC) in E; rewrite (fire_thr _ RC)];
+        inversion E; subst o h'; eexists; (split; [reflexivity|frame_tac]).
+    + (* left alone: congruence *)
+      pose proof (IHe Hs c) as I1. destruct (rw e c) as [o' c1] eqn:Ro. simpl in I1.
+      assert (Hc1 : c <= c1) by (destruct (I1 h t); auto).
+      destruct (src_tenv e Hs h t) as (o1 & h1 & E1).
+      cbn [fst snd]. split; [lia|]. intros o h' E.
+      destruct (I1 h t) as (_ & K1). destruct (K1 o1 h1 E1) as (t1 & El & F1).
+      rewrite eval_optm0, El. specialize (E t). rewrite eval_optm0, E1 in E.
+      destruct o1 as [vo|vo]; cbn [bind] in *; [|inversion E; subst o h'; eexists; split; [reflexivity|frame_tac]].
+      destruct (nullish vo) eqn:NV; [inversion E; subst o h'; eexists; split; [reflexivity|frame_tac]|].
+      destruct (respond h1 (EvGet vo m)) as [vf|vf] eqn:RG.
+      2:{ rewrite (fire_thr t RG) in E. rewrite (fire_thr t1 RG). cbn [bind] in *. inversion E; subst o h'. eexists; split; [reflexivity|frame_tac]. }
+      rewrite (fire_ret t RG) in E. rewrite (fire_ret t1 RG). cbn [bind] in *.
+      destruct (respond (h1 ++ [EvGet vo m]) (EvCallT vf vo [])) eqn:RC;
+        [rewrite (fire_ret t RC) in E; rewrite (fire_ret t1 RC) | rewrite (fire_thr t RC) in E; rewrite (fire_thr t1 RC)];
+        inversion E; subst o h'; eexists; (split; [reflexivity|frame_tac]).
+  - (* optional method call with one argument *)
+    destruct Hs as [Hl Hr]. rewrite rw_optm1_eq. destruct (instr m && negb (is_lit e1)) eqn:INS.
+    + pose proof (IHe1 Hl (S c)) as I1. destruct (rw e1 (S c)) as [o' c1] eqn:Ro. simpl in I1.
+      pose proof (IHe2 Hr c1) as I2. pose proof (rw_inplace_src e2 c1 Hr) as P2.
+      destruct (rw e2 c1) as [a' c2] eqn:Ra. simpl in I2, P2.
+      assert (Hc1 : S c <= c1) by (destruct (I1 h t); auto).
+      assert (Hc2 : c1 <= c2) by (destruct (I2 h t); auto).
+      destruct (src_tenv e1 Hl h t) as (o1 & h1 & E1).
+      unfold rw_mcall. cbn [is_lit].
+      assert (DA : arg_act a' = Hoist \/ arg_act a' <> Hoist) by (destruct (arg_act a'); auto; right; discriminate).
+      destruct DA as [HA | NA].
+      * rewrite HA. cbn [app fst snd wrap]. split; [lia|]. intros o h' E.
+        destruct (I1 h t) as (_ & K1). destruct (K1 o1 h1 E1) as (t1 & El & F1).
+        rewrite eval_guard, El. specialize (E t). rewrite eval_optm1, E1 in E.
+        destruct o1 as [vo|vo]; cbn [bind fst snd] in *; [|inversion E; subst o h'; eexists; split; [reflexivity|frame_tac]].
+        destruct (nullish vo) eqn:NV; [inversion E; subst o h'; eexists; split; [reflexivity|frame_tac]|].
+        rewrite eval_hoist3, eval_tmp. cbn [bind fst snd]. rewrite upd_same.
+        rewrite eval_get, eval_tmp. cbn [bind fst snd]. rewrite upd_same.
+        destruct (respond h1 (EvGet vo m)) as [vf|vf] eqn:RG.
+        2:{ rewrite (fire_thr t RG) in E. rewrite (fire_thr _ RG). cbn [bind] in *. inversion E; subst o h'. eexists; split; [reflexivity|frame_tac]. }
+        rewrite (fire_ret t RG) in E. rewrite (fire_ret _ RG). cbn [bind fst snd] in *.
+        destruct (src_tenv e2 Hr (h1 ++ [EvGet vo m]) t) as (o2 & h2 & E2).
+        destruct (I2 (h1 ++ [EvGet vo m]) (upd (upd (upd t1 c vo) c2 vo) (S c2) vf)) as (_ & K2). destruct (K2 o2 h2 E2) as (t2 & Er & F2).
+        rewrite Er. rewrite E2 in E.
+        destruct o2 as [va|va]; cbn [bind fst snd] in *; [|inversion E; subst o h'; eexists; split; [reflexivity|frame_tac]].
+        rewrite hook_pure by (repeat constructor; apply pure_tmp).
+        rewrite eval_callt1. step_eval. rewrite upd_same.
+        assert (Hf : upd t2 (S (S c2)) va (S c2) = vf).
+        { rewrite upd_other by lia. rewrite F2 by lia. apply upd_same. }
+        assert (Ho : upd t2 (S (S c2)) va c2 = vo).
+        { rewrite upd_other by lia. rewrite F2 by lia. rewrite upd_other by lia. apply upd_same. }
+        rewrite Hf, Ho.
+        destruct (respond h2 (EvCallT vf vo [va])) eqn:RC;
+          [rewrite (fire_ret t RC) in E; rewrite (fire_ret _ RC) | rewrite (fire_thr t RC) in E; rewrite (fire_thr _ RC)];
+          inversion E; subst o h'; eexists; (split; [reflexivity|frame_tac]).
+      * destruct (arg_not_hoist a' NA) as [SH CK]. destruct (P2 SH) as [Q2 IP2]. inversion Q2; subst a' c2.
+        destruct (const_of_inplace IP2 CK) as (va & Ca).
+        assert (GEN : forall args, Forall pure_expr args ->
+                  forall o h', (forall t2 : tenv, eval (OptMCall1 e1 m e2) (h, t2) = (o, (h', t2))) ->
+                  exists t', eval (Guard c o' (Hoist2 c1 (Tmp c) (S c1) (Get (Tmp c1) m) (Hook (CallT1 (Tmp (S c1)) (Tmp c1) e2) args))) (h, t) = (o, (h', t'))
+                             /\ frame c (S (S c1)) t t').
+        { intros args PA o h' E. specialize (E t). rewrite eval_optm1, E1 in E.
+          destruct (I1 h t) as (_ & K1). destruct (K1 o1 h1 E1) as (t1 & El & F1).
+          rewrite eval_guard, El.
+          destruct o1 as [vo|vo]; cbn [bind fst snd] in *; [|inversion E; subst o h'; eexists; split; [reflexivity|frame_tac]].
+          destruct (nullish vo) eqn:NV; [inversion E; subst o h'; eexists; split; [reflexivity|frame_tac]|].
+          rewrite eval_hoist2, eval_tmp. cbn [bind fst snd]. rewrite upd_same.
+          rewrite eval_get, eval_tmp. cbn [bind fst snd]. rewrite upd_same.
+          destruct (respond h1 (EvGet vo m)) as [vf|vf] eqn:RG.
+          2:{ rewrite (fire_thr t RG) in E. rewrite (fire_thr _ RG). cbn [bind] in *. inversion E; subst o h'. eexists; split; [reflexivity|frame_tac]. }
+          rewrite (fire_ret t RG) in E. rewrite (fire_ret _ RG). cbn [bind fst snd] in *.
+          rewrite Ca in E. cbn [bind] in E.
+          rewrite (hook_pure _ _ PA). rewrite eval_callt1. step_eval. rewrite Ca. cbn [bind]. rewrite upd_same.
+          rewrite upd_other by lia. rewrite upd_same.
+          destruct (respond (h1 ++ [EvGet vo m]) (EvCallT vf vo [va])) eqn:RC;
+            [rewrite (fire_ret t RC) in E; rewrite (fire_ret _ RC) | rewrite (fire_thr t RC) in E; rewrite (fire_thr _ RC)];
+            inversion E; subst o h'; eexists; (split; [reflexivity|frame_tac]). }
+        destruct (arg_act e2) eqn:AA; try congruence; cbn [app fst snd wrap]; (split; [lia|]);
+          apply GEN; repeat constructor; try apply pure_tmp; apply const_pure; exists va; exact Ca.
+    + (* left alone: congruence *)
+      pose proof (IHe1 Hl c) as I1. destruct (rw e1 c) as [o' c1] eqn:Ro. simpl in I1.
+      pose proof (IHe2 Hr c1) as I2. destruct (rw e2 c1) as [a' c2] eqn:Ra. simpl in I2.
+      assert (Hc1 : c <= c1) by (destruct (I1 h t); auto).
+      assert (Hc2 : c1 <= c2) by (destruct (I2 h t); auto).
+      destruct (src_tenv e1 Hl h t) as (o1 & h1 & E1).
+      cbn [fst snd]. split; [lia|]. intros o h' E.
+      destruct (I1 h t) as (_ & K1). destruct (K1 o1 h1 E1) as (t1 & El & F1).
+      rewrite eval_optm1, El. specialize (E t). rewrite eval_optm1, E1 in E.
+      destruct o1 as [vo|vo]; cbn [bind] in *; [|inversion E; subst o h'; eexists; split; [reflexivity|frame_tac]].
+      destruct (nullish vo) eqn:NV; [inversion E; subst o h'; eexists; split; [reflexivity|frame_tac]|].
+      destruct (respond h1 (EvGet vo m)) as [vf|vf] eqn:RG.
+      2:{ rewrite (fire_thr t RG) in E. rewrite (fire_thr t1 RG). cbn [bind] in *. inversion E; subst o h'. eexists; split; [reflexivity|frame_tac]. }
+      rewrite (fire_ret t RG) in E. rewrite (fire_ret t1 RG). cbn [bind] in *.
+      destruct (src_tenv e2 Hr (h1 ++ [EvGet vo m]) t) as (o2 & h2 & E2).
+      destruct (I2 (h1 ++ [EvGet vo m]) t1) as (_ & K2). destruct (K2 o2 h2 E2) as (t2 & Er & F2).
+      rewrite Er. rewrite E2 in E.
+      destruct o2 as [va|va]; cbn [bind] in *; [|inversion E; subst o h'; eexists; split; [reflexivity|frame_tac]].
+      destruct (respond h2 (EvCallT vf vo [va])) eqn:RC;
+        [rewrite (fire_ret t RC) in E; rewrite (fire_ret t2 RC) | rewrite (fire_thr t RC) in E; rewrite (fire_thr t2 RC)];
+        inversion E; subst o h'; eexists; (split; [reflexivity|frame_tac]).
 Qed.
 
 End Proofs.
